@@ -22,13 +22,13 @@ func addr(i int) string { return fmt.Sprintf("127.0.0.1:%d", 2001+i) }
 
 type fault struct {
 	at   time.Duration
-	kind string // crash | restart | restart-new-id | partition | heal
+	kind string // crash | restart | restart-new-id | restart-moved | partition | heal
 	a, b int
 }
 
 type params struct {
 	n       int
-	seeds   string          // one | two | self
+	seeds   string          // one | two | self | island (node 0: [0]; node 2: [2]; the others: [0, 2])
 	offsets []time.Duration // start offset per node
 	fd      time.Duration   // failure detection timeout (0 = off)
 	confirm time.Duration   // suspect confirm duration
@@ -49,6 +49,7 @@ func (p params) name() string {
 
 type node struct {
 	i       int
+	address string
 	w       *vsys.World
 	running bool
 	gen     int // restarts
@@ -85,14 +86,19 @@ func scenario(p params, bounds []int) *vexp.Scenario {
 				seeds = []string{addr(0), addr(1)}
 			}
 			nodes := make([]*node, p.n)
-			start := func(i int, nodeID string) {
+			start := func(i int, nodeID string, address string) {
 				ss := seeds
-				if p.seeds == "self" {
+				switch {
+				case p.seeds == "self":
 					ss = []string{addr(i)}
+				case p.seeds == "island" && (i == 0 || i == 2):
+					ss = []string{addr(i)}
+				case p.seeds == "island":
+					ss = []string{addr(0), addr(2)}
 				}
 				copts := []vivid.ClusterOption{vivid.WithClusterNodeID(nodeID), vivid.WithClusterName("c18"), vivid.WithClusterSeeds(ss),
 					vivid.WithClusterDiscoveryInterval(time.Second), vivid.WithClusterFailureDetectionTimeout(p.fd), vivid.WithClusterSuspectConfirmDuration(p.confirm)}
-				w := vsys.NewWorld(x, vivid.WithActorSystemRemoting(addr(i)),
+				w := vsys.NewWorld(x, vivid.WithActorSystemRemoting(address),
 					vivid.WithActorSystemRemotingOption(vivid.WithActorSystemRemotingReconnect(1, 100*time.Millisecond, 200*time.Millisecond, 2, false), vivid.WithActorSystemRemotingClusterOption(copts...)),
 					vivid.WithActorSystemDefaultAskTimeout(3*time.Second))
 				w.Quiet = true
@@ -100,7 +106,7 @@ func scenario(p params, bounds []int) *vexp.Scenario {
 				if nodes[i] != nil {
 					gen = nodes[i].gen + 1
 				}
-				nodes[i] = &node{i: i, w: w, running: true, gen: gen}
+				nodes[i] = &node{i: i, address: address, w: w, running: true, gen: gen}
 				w.Start()
 			}
 			// the dialing node is the one whose thread runs: track it through the HandleEnvelop tap
@@ -132,7 +138,7 @@ func scenario(p params, bounds []int) *vexp.Scenario {
 			var steps []step
 			for i := 0; i < p.n; i++ {
 				i := i
-				steps = append(steps, step{p.offsets[i], func() { start(i, fmt.Sprintf("node-%d", i)) }})
+				steps = append(steps, step{p.offsets[i], func() { start(i, fmt.Sprintf("node-%d", i), addr(i)) }})
 			}
 			lastFault := time.Duration(0)
 			for _, f := range p.faults {
@@ -146,19 +152,23 @@ func scenario(p params, bounds []int) *vexp.Scenario {
 						isolated[addr(f.a)] = true
 						nodes[f.a].running = false
 						breakConns(func(c *vnet.VConn) bool { return true })
-					case "restart", "restart-new-id":
-						// the old process dies, a new one comes up on the same address
+					case "restart", "restart-new-id", "restart-moved":
+						// the old process dies, a new one comes up on the same address (restart-moved: same NodeID on a new address)
 						old := nodes[f.a]
-						isolated[addr(f.a)] = true
+						isolated[old.address] = true
 						breakConns(func(c *vnet.VConn) bool { return true })
 						old.running = false
 						old.w.Sys.Stop(time.Second)
-						isolated[addr(f.a)] = false
 						id := fmt.Sprintf("node-%d", f.a)
 						if f.kind == "restart-new-id" {
 							id = fmt.Sprintf("node-%d-r%d", f.a, old.gen+1)
 						}
-						start(f.a, id)
+						if f.kind == "restart-moved" {
+							start(f.a, id, addr(f.a+10*(old.gen+1)))
+						} else {
+							isolated[old.address] = false
+							start(f.a, id, old.address)
+						}
 					case "partition":
 						cutPairs[addr(f.a)+"|"+addr(f.b)] = true
 						breakConns(func(c *vnet.VConn) bool { return true })
@@ -194,7 +204,7 @@ func scenario(p params, bounds []int) *vexp.Scenario {
 			for _, nd := range nodes {
 				if nd.running {
 					running = append(running, nd.i)
-					wantMembers = append(wantMembers, addr(nd.i))
+					wantMembers = append(wantMembers, nd.address)
 				}
 			}
 			sort.Strings(wantMembers)
@@ -217,7 +227,7 @@ func scenario(p params, bounds []int) *vexp.Scenario {
 					ms = append(ms, fmt.Sprintf("%s#g%d.c%d", m.Address, m.Generation, m.LogicalClock))
 				}
 				sort.Strings(ms)
-				sums = append(sums, viewSum{strings.Join(ms, " "), cluster.ComputeLeaderAddr(view), addr(i)})
+				sums = append(sums, viewSum{strings.Join(ms, " "), cluster.ComputeLeaderAddr(view), nd.address})
 			}
 			if len(sums) > 0 {
 				leaders := 0
@@ -250,7 +260,7 @@ func scenario(p params, bounds []int) *vexp.Scenario {
 			for _, i := range running {
 				for _, pb := range nodes[i].w.Pubs {
 					if (pb.Type == "ClusterMembersChangedEvent" || pb.Type == "ClusterLeaderChangedEvent") && pb.At >= quietFrom {
-						x.Fail("no-further-changes", "node %s still announced %s at %v (healing phase ends at %v, faults stopped at %v)", addr(i), pb.Type, time.Duration(pb.At), endAt, lastFault)
+						x.Fail("no-further-changes", "node %s still announced %s at %v (healing phase ends at %v, faults stopped at %v)", nodes[i].address, pb.Type, time.Duration(pb.At), endAt, lastFault)
 						break
 					}
 				}
@@ -302,6 +312,12 @@ func build(tier string) []*vexp.Scenario {
 	add(params{n: 3, seeds: "two", offsets: []time.Duration{0, 300 * ms, 700 * ms}, fd: 4 * s, confirm: 2 * s}, b0)
 	// schedule deviations on the smallest healthy cluster
 	add(params{n: 2, seeds: "one", offsets: []time.Duration{0, 0}, fd: 4 * s}, b1)
+	// a self-seeded island that only learns of the others when they contact it (and the other way round), started late
+	for _, fd := range []time.Duration{4 * s, 0} {
+		for _, late := range []time.Duration{700 * ms, 3 * s, 6 * s} {
+			add(params{n: 3, seeds: "island", offsets: []time.Duration{0, 300 * ms, late}, fd: fd}, b0)
+		}
+	}
 	// one fault (or a partition + its heal), at several instants
 	std := []time.Duration{0, 300 * ms, 700 * ms}
 	for _, at := range []time.Duration{3 * s, 5 * s, 7500 * ms} {
@@ -314,6 +330,11 @@ func build(tier string) []*vexp.Scenario {
 			add(params{n: 2, seeds: seeds, offsets: std[:2], fd: 4 * s, faults: []fault{{at, "partition", 0, 1}, {at + 10*s, "heal", 0, 1}}}, b0)
 			add(params{n: 2, seeds: seeds, offsets: std[:2], fd: 4 * s, faults: []fault{{at, "restart", 1, 0}}}, b0)
 			add(params{n: 2, seeds: seeds, offsets: std[:2], fd: 4 * s, faults: []fault{{at, "crash", 1, 0}}}, b0)
+			// failure detection off: a restarted node must replace its previous incarnation through generation / NodeID alone
+			add(params{n: 3, seeds: seeds, offsets: std, fd: 0, faults: []fault{{at, "restart", 2, 0}}}, b0)
+			add(params{n: 3, seeds: seeds, offsets: std, fd: 0, faults: []fault{{at, "restart-moved", 2, 0}}}, b0)
+			add(params{n: 3, seeds: seeds, offsets: std, fd: 4 * s, faults: []fault{{at, "restart-moved", 2, 0}}}, b0)
+			add(params{n: 3, seeds: seeds, offsets: std, fd: 0, faults: []fault{{at, "restart-moved", 2, 0}, {at + 4*s, "restart-moved", 2, 0}}}, b0)
 		}
 	}
 	if tier == "thorough" {
